@@ -231,7 +231,7 @@ func (c *goCallable) Call(argv []reflect.Value) (reflect.Value, error) {
 
 	results := c.fn.Call(argv)
 
-	if len(results) == 2 && !results[1].IsNil() {
+	if len(results) == 2 && !isNilValue(results[1]) {
 		err := results[1].Interface().(error)
 		if err == jtypes.ErrUndefined {
 			err = nil
@@ -240,6 +240,16 @@ func (c *goCallable) Call(argv []reflect.Value) (reflect.Value, error) {
 	}
 
 	return results[0], nil
+}
+
+// isNilValue reports whether v holds nil. Values of kinds that
+// cannot be nil (e.g. an error type that is a struct) never do.
+func isNilValue(v reflect.Value) bool {
+	switch v.Kind() {
+	case reflect.Chan, reflect.Func, reflect.Interface, reflect.Map, reflect.Ptr, reflect.Slice:
+		return v.IsNil()
+	}
+	return false
 }
 
 func (c *goCallable) validateArgCount(argv []reflect.Value) ([]reflect.Value, error) {
